@@ -8,14 +8,13 @@ from ..model import AnalysisError, FuncInfo, Repo, norm_src, walk_no_nested
 from ..report import Ctx
 from ..symeval import BV, Frame, Obj, Opaque, Path, SymEval, Tok, atom_pretty
 
-_cache: dict[tuple[int, str], Any] = {}
-
-
 def cached(repo: Repo, key: str, build: Callable[[], Any]) -> Any:
-    k = (id(repo), key)
-    if k not in _cache:
-        _cache[k] = build()
-    return _cache[k]
+    # caches live on the Repo object itself: ids of dead objects are reused by CPython, so id-keyed tables would leak
+    # facts from one analysed tree into another (the self-test analyses many trees in one process)
+    store = repo.__dict__.setdefault('_wc_cache', {})
+    if key not in store:
+        store[key] = build()
+    return store[key]
 
 
 def opaque_model(tag: str) -> Callable:
